@@ -395,6 +395,27 @@ Section Valid.
       end
     end.
 
+  (* why an object is not valid, one level deep (for messages; the verdict is valid_obj) *)
+  Inductive why :=
+  | WNotObject | WNoClass
+  | WUnknownProperty (n : ustring) | WBadValue (n : ustring) | WMissing (n : ustring) | WConstraint (i : nat).
+
+  Definition explain_obj (fuel : nat) (cid : ustring) (j : jvalue) : list why :=
+    match find_class (wclasses sw) cid, j with
+    | Some c, JObj m =>
+      flat_map (fun kv => match find (fun s => ustr_eqb (sname s) (fst kv)) (cslots c) with
+                          | Some s => if valid_kind fuel (skind s) (snd kv) then [] else [WBadValue (fst kv)]
+                          | None => [WUnknownProperty (fst kv)]
+                          end) m ++
+      flat_map (fun s => if negb (spec_required c s) || match jlookup (sname s) m with Some _ => true | None => false end
+                         then [] else [WMissing (sname s)]) (cslots c) ++
+      flat_map (fun ik => if jconstr (S fuel) c m (snd ik) then [] else [WConstraint (fst ik)])
+               (let cs := (match cfamily c with FExt => [CAtLeastOneDefault] | _ => [] end) ++ ccons c in
+                combine (seq 0 (List.length cs)) cs)
+    | None, _ => [WNoClass]
+    | _, _ => [WNotObject]
+    end.
+
   (* a top-level object: dispatch on type and spec_version as the specification does *)
   Definition valid_toplevel (fuel : nat) (j : jvalue) : bool :=
     match j with
@@ -430,3 +451,17 @@ Section Valid.
     | _ => false
     end.
 End Valid.
+
+Definition show_why1 (w : why) : string :=
+  match w with
+  | WNotObject => "not-an-object" | WNoClass => "no-such-class"
+  | WUnknownProperty n => append "unknown-property:" (show_ustr n)
+  | WBadValue n => append "bad-value:" (show_ustr n)
+  | WMissing n => append "missing:" (show_ustr n)
+  | WConstraint i => append "constraint#" (show_nat i)
+  end.
+Definition show_why (l : list why) : string :=
+  match l with
+  | [] => "valid"
+  | _ => fold_right (fun w acc => append (show_why1 w) (append " " acc)) EmptyString l
+  end.
